@@ -690,6 +690,7 @@ Proof.
     destruct (find_get_inv o c2 (b :: from) C2) as [_ N3].
     destruct (find o c2 (b :: from) _) as [[| |r] c3]; cbn [fst] in *; try discriminate. congruence. }
   destruct (match from with [] => Ok (node_of_con c2) | _ => _ end) as [v|e|]; [|apply safe_err|congruence].
+  destruct (copy_too_deep o v); [apply safe_err|].
   pose proof (ninv_deep_copy o v) as Hcp. destruct (deep_copy o v) as [cp sz]. cbn [fst] in Hcp.
   destruct ((0 <? o_limit o)%Z && (o_limit o <? s_acc st + sz)%Z); [apply safe_err|].
   destruct (find_add_inv o c2 path cp C2 Hcp) as [A1 A2]. unfold add_leaf in *.
